@@ -317,6 +317,13 @@ class Path:
             else:
                 o.trail.append((True, False))
                 self.dead = True
+                # the path condition is already contradictory: an assumed contract / invariant / axiom excluded everything.
+                # Legitimate only after a call whose contract says it never returns normally (`ensures False`).
+                if not getattr(self, "expect_dead", False):
+                    ob = Obligation("%s/vacuity:dead-path-after-contradictory-assumptions" % self.fc.qualname, [], None, "vacuity", 0, self.pid)
+                    ob.result, ob.backend = "vacuous", "feasibility-check"
+                    ob.detail = "path condition became unsatisfiable by assumptions (not by a branch condition) before line-level decision %d" % i
+                    self.obligations.append(ob)
                 raise PathEnd()
         self.pc.append(c if d else z3.Not(c))
         return d
@@ -599,7 +606,7 @@ class Path:
             arr0 = self.entry.heap[key]
             if arr.eq(arr0) or key in whole:
                 continue
-            cond = [z3.Select(self.entry.alloc, o)]
+            cond = [z3.Select(self.entry.alloc, o), o != 0]
             if self.fc.kind == "init" and self.selfname:
                 cond.append(o != self.env.locals[self.selfname].t)
             for r in cells.get(key, []):
@@ -1714,8 +1721,11 @@ class Path:
             elif a.s == NONE:
                 t = ops.is_none(b)
             else:
-                a, b = self.unify(a, b)
-                t = a.t == b.t
+                try:
+                    a, b = self.unify(a, b)
+                    t = a.t == b.t
+                except TypeError:
+                    t = z3.BoolVal(False)      # values of unrelated kinds are never the same object
             return z3.Not(t) if isinstance(op, ast.IsNot) else t
         if isinstance(op, (ast.In, ast.NotIn)):
             if isinstance(b.s, MapS):
